@@ -1,7 +1,10 @@
 package keeper
 
 import (
+	"strings"
+
 	saodid "github.com/SaoNetwork/sao-did"
+	saodidparser "github.com/SaoNetwork/sao-did/parser"
 	sid "github.com/SaoNetwork/sao-did/sid"
 	saodidtypes "github.com/SaoNetwork/sao-did/types"
 	saodidutil "github.com/SaoNetwork/sao-did/util"
@@ -67,6 +70,30 @@ func (k Keeper) verifySignature(ctx sdk.Context, owner string, proposal Proposal
 	sigDid, err := saodidutil.KidToDid(kid)
 	if err != nil {
 		return "", sdkerrors.Wrap(types.ErrorInvalidSignature, err.Error())
+	}
+
+	if parsedKid, perr := saodidparser.Parse(kid); perr == nil && parsedKid.Method == "sid" {
+		// the document version named in the kid must be a version of the signer DID itself, not the
+		// document of some other sid
+		versionId := ""
+		for _, q := range strings.Split(parsedKid.Query, "&") {
+			if strings.HasPrefix(q, "version-id=") || strings.HasPrefix(q, "versionId=") {
+				versionId = strings.SplitN(q, "=", 2)[1]
+			}
+		}
+		if versionId != "" {
+			valid := false
+			if versions, found := k.did.GetSidDocumentVersion(ctx, parsedKid.ID); found {
+				for _, v := range versions.VersionList {
+					if v == versionId {
+						valid = true
+					}
+				}
+			}
+			if !valid {
+				return "", sdkerrors.Wrap(types.ErrorInvalidSignature, "sid document version does not belong to the signer did")
+			}
+		}
 	}
 
 	return sigDid, nil
